@@ -259,7 +259,7 @@ theorem parseSlider_ne_panic (curve : List CP) (x y : Int) (sound : Nat) (ps rs 
   | ok reps =>
     simp only []
     have hr := parseI32_ok_range _ _ hreps
-    by_cases h9 : reps > 9000
+    by_cases h9 : reps > repeatCap
     · rw [if_pos h9]; simp
     · rw [if_neg h9]
       have : repeatsOf reps = some (if reps - 1 < 0 then 0 else reps - 1).toNat := by
